@@ -398,6 +398,45 @@ type ddesc struct {
 	res    rdesc
 	err    int // 0 nil, 1 partial, 2 other
 	viaOpt bool
+	// custom: the detector is not a scripted one (a built-in option, resource.StringDetector); res / err describe what it returns
+	custom     func(sentinel error) (resource.Option, resource.Detector)
+	name       string
+	invalidKey bool // StringDetector with an empty key: fails with its own (sentinel-free) error
+}
+
+// builtinOpt: an option of config.go whose detector reads the machine; what it yields is observed once by running it alone.
+type builtinOpt struct {
+	name string
+	opt  func() resource.Option
+	res  rdesc
+}
+
+func probeBuiltins() []builtinOpt {
+	cands := []builtinOpt{
+		{name: "WithTelemetrySDK", opt: resource.WithTelemetrySDK}, {name: "WithHost", opt: resource.WithHost}, {name: "WithHostID", opt: resource.WithHostID},
+		{name: "WithOS", opt: resource.WithOS}, {name: "WithOSType", opt: resource.WithOSType}, {name: "WithOSDescription", opt: resource.WithOSDescription},
+		{name: "WithProcess", opt: resource.WithProcess}, {name: "WithProcessPID", opt: resource.WithProcessPID},
+		{name: "WithProcessExecutableName", opt: resource.WithProcessExecutableName}, {name: "WithProcessExecutablePath", opt: resource.WithProcessExecutablePath},
+		{name: "WithProcessCommandArgs", opt: resource.WithProcessCommandArgs}, {name: "WithProcessOwner", opt: resource.WithProcessOwner},
+		{name: "WithProcessRuntimeName", opt: resource.WithProcessRuntimeName}, {name: "WithProcessRuntimeVersion", opt: resource.WithProcessRuntimeVersion},
+		{name: "WithProcessRuntimeDescription", opt: resource.WithProcessRuntimeDescription},
+		{name: "WithContainer", opt: resource.WithContainer}, {name: "WithContainerID", opt: resource.WithContainerID},
+	}
+	var out []builtinOpt
+	for _, c := range cands {
+		func() {
+			defer func() { recover() }()
+			r1, e1 := resource.New(context.Background(), c.opt())
+			r2, e2 := resource.New(context.Background(), c.opt())
+			if e1 != nil || e2 != nil || r1 == nil || !observe(r1).same(observe(r2)) {
+				return // fails or is not stable on this machine: cannot serve as a known operand
+			}
+			o := observe(r1)
+			c.res = rdesc{kind: 2, schema: o.schema, input: o.attrs}
+			out = append(out, c)
+		}()
+	}
+	return out
 }
 
 type scripted struct {
@@ -434,11 +473,45 @@ type envResult struct {
 	Schema   string  `json:"schema"`
 	Err      int     `json:"err"`
 	EnvSame  bool    `json:"env_same"`
+	Default  string  `json:"default,omitempty"` // why resource.Default() is wrong, empty = fine / not checked
 	ErrText  string  `json:"err_text"`
 	Panicked string  `json:"panicked,omitempty"`
 }
 
-func runEnvOnce() (res envResult) {
+// checkDefaultResource: Default() = default service name, then the environment, then the telemetry SDK, later ones winning.
+func checkDefaultResource(env *resource.Resource) string {
+	d := resource.Default()
+	if d != resource.Default() {
+		return "Default() is not the same resource on the second call"
+	}
+	sdk, _ := resource.New(context.Background(), resource.WithTelemetrySDK())
+	ds := d.Set()
+	for _, a := range sdk.Attributes() {
+		if v, ok := ds.Value(a.Key); !ok || v != a.Value {
+			return "telemetry SDK attribute " + string(a.Key) + " missing or overridden"
+		}
+	}
+	sdkKeys := sdk.Set()
+	for _, a := range env.Attributes() {
+		if sdkKeys.HasValue(a.Key) {
+			continue
+		}
+		if v, ok := ds.Value(a.Key); !ok || v != a.Value {
+			return "environment attribute " + string(a.Key) + " missing or overridden in Default()"
+		}
+	}
+	if v, ok := ds.Value("service.name"); !ok || v.AsString() == "" {
+		return "Default() has no service.name"
+	} else if _, fromEnv := env.Set().Value("service.name"); !fromEnv && !strings.HasPrefix(v.AsString(), "unknown_service") {
+		return "default service.name is " + v.AsString()
+	}
+	if d.Len() > env.Len()+sdk.Len()+1 || d.SchemaURL() != sdk.SchemaURL() {
+		return "Default() has extra attributes or another schema URL"
+	}
+	return ""
+}
+
+func runEnvOnce(checkDefault bool) (res envResult) {
 	defer func() {
 		if e := recover(); e != nil {
 			res.Panicked = fmt.Sprint(e)
@@ -462,6 +535,9 @@ func runEnvOnce() (res envResult) {
 	}
 	e2 := resource.Environment()
 	res.EnvSame = e2.Equal(r) && e2.SchemaURL() == r.SchemaURL() && len(e2.Attributes()) == len(r.Attributes())
+	if checkDefault {
+		res.Default = checkDefaultResource(r)
+	}
 	return res
 }
 
@@ -469,7 +545,7 @@ func childMain(batch bool) {
 	otel.SetErrorHandler(otel.ErrorHandlerFunc(func(error) {})) // constructOTResources reports unescape errors to the global handler
 	out := json.NewEncoder(os.Stdout)
 	if !batch {
-		out.Encode(runEnvOnce())
+		out.Encode(runEnvOnce(true))
 		return
 	}
 	sc := bufio.NewScanner(os.Stdin)
@@ -496,7 +572,7 @@ func childMain(batch bool) {
 				os.Exit(3)
 			}
 		}
-		out.Encode(runEnvOnce())
+		out.Encode(runEnvOnce(false))
 	}
 }
 
@@ -770,6 +846,29 @@ func main() {
 			if res.Len() != len(o.attrs) {
 				w.Violation("Len() disagrees with Attributes()", desc)
 			}
+			enc := res.Encoded(attribute.DefaultEncoder())
+			if res.String() != enc || res.Set().Encoded(attribute.DefaultEncoder()) != enc {
+				w.Violation("String() / Encoded(DefaultEncoder()) / Set().Encoded disagree", desc)
+			}
+			if !observe(res).same(robs{attrs: fromAttrs(res.Set().ToSlice()), schema: res.SchemaURL()}) || (res.Equal(res) && res.Set().Equivalent() != res.Equivalent()) {
+				w.Violation("Set() disagrees with Attributes() / Equivalent()", desc)
+			}
+			var walked []attribute.KeyValue
+			for wi := res.Iter(); wi.Next() && len(walked) <= len(o.attrs); {
+				walked = append(walked, wi.Attribute())
+			}
+			if !observe(res).same(robs{attrs: fromAttrs(walked), schema: res.SchemaURL()}) {
+				w.Violation("Iter() walk disagrees with Attributes()", desc)
+			}
+			if j1, e1 := res.MarshalJSON(); e1 == nil {
+				j2, _ := res.Set().MarshalJSON()
+				if string(j1) != string(j2) {
+					w.Violation("Resource.MarshalJSON differs from its Set's", desc)
+				}
+			}
+			if res != nil && res.MarshalLog() == nil { // (nil *Resource).MarshalLog() dereferences nil: outside the property, see notes
+				w.Violation("MarshalLog returned nil", desc)
+			}
 			it := res.Iter()
 			if it.Len() != len(o.attrs) {
 				w.Violation("Iter().Len() disagrees with Attributes()", desc)
@@ -862,6 +961,30 @@ func main() {
 		addMerge3(Av, Bv, S)
 		addMerge3(S, Av, Bv)
 	}
+	allBad := []kvt{{"", val{t: 4, s: "nokey"}}, {"bad", val{}}, {"", val{}}}
+	V0 := rdesc{kind: 2, schema: "", input: allBad}          // every key-value invalid: the empty resource
+	V1 := rdesc{kind: 2, schema: "https://a", input: allBad} // ... with a schema URL: only the URL remains
+	V2 := rdesc{kind: 2, schema: "", input: []kvt{{"k", val{t: 4, s: "ok"}}, {"k", val{}}}} // valid then invalid: the key goes
+	for _, d := range []rdesc{V0, V1, V2} {
+		addBuild(d)
+		addMerge2(A, d, "corpus-invalid")
+		addMerge2(d, B, "corpus-invalid")
+		addEqual(d, E, "corpus-invalid-vs-empty")
+	}
+	guard("nil *Resource", func() {
+		var np *resource.Resource
+		if np.String() != "" || np.Encoded(attribute.DefaultEncoder()) != "" || np.Len() != 0 || np.SchemaURL() != "" || len(np.Attributes()) != 0 ||
+			np.Set() == nil || np.Set().Len() != 0 || !np.Equal(resource.Empty()) || !resource.Empty().Equal(np) || np.Equivalent() != resource.Empty().Equivalent() {
+			w.Violation("nil *Resource does not behave as the empty resource", "nil Resource")
+		}
+		it := np.Iter()
+		if it.Next() {
+			w.Violation("nil *Resource iterates", "nil Resource")
+		}
+		if b, err := np.MarshalJSON(); err != nil || string(b) != "[]" && string(b) != "null" {
+			w.Violation(fmt.Sprintf("nil *Resource MarshalJSON = %q, %v", b, err), "nil Resource")
+		}
+	})
 	for _, d := range []rdesc{A, B, E, NIL, S, U} {
 		addBuild(d)
 	}
@@ -936,6 +1059,14 @@ func main() {
 	}
 
 	// --- CDetect ---
+	builtins := probeBuiltins()
+	{
+		var names []string
+		for _, b := range builtins {
+			names = append(names, b.name)
+		}
+		w.Extra["builtin_options_usable"] = names
+	}
 	nDet := o.Count(300, 6000)
 	for i := 0; i < nDet; i++ {
 		n := vgen.Pick(r, []int{0, 1, 2, 2, 3, 3, 4, 5, 6})
@@ -957,7 +1088,36 @@ func main() {
 			if !d.absent && d.err == 0 && d.res.kind == 2 && d.res.schema == "" && r.Bool() {
 				d.viaOpt = true
 			}
+			switch x := r.Intn(14); {
+			case x < 2 && len(builtins) > 0: // an option of config.go with a built-in detector
+				b := vgen.Pick(r, builtins)
+				d = ddesc{res: b.res, name: b.name, custom: func(error) (resource.Option, resource.Detector) { return b.opt(), nil }}
+			case x < 4: // resource.StringDetector: value, failing function, or empty key
+				schema, key, v := vgen.Pick(r, []string{"", "https://a", "https://a", "https://A"}), vgen.Pick(r, keyPool), vgen.Pick(r, strPool)
+				fail := r.Chance(1, 4)
+				d = ddesc{name: fmt.Sprintf("StringDetector(%q,%q,%q,fail=%v)", schema, key, v, fail)}
+				switch {
+				case fail:
+					d.res, d.err = rdesc{kind: 0}, 2
+				case key == "":
+					d.res, d.err, d.invalidKey = rdesc{kind: 0}, 2, true
+				default:
+					d.res = rdesc{kind: 2, schema: schema, input: []kvt{{key, val{t: 4, s: v}}}}
+				}
+				d.custom = func(sentinel error) (resource.Option, resource.Detector) {
+					det := resource.StringDetector(schema, attribute.Key(key), func() (string, error) {
+						if fail {
+							return v, sentinel
+						}
+						return v, nil
+					})
+					return resource.WithDetectors(det), det
+				}
+			}
 			ds = append(ds, d)
+		}
+		if n >= 2 && r.Chance(1, 6) { // the same detector listed twice
+			ds[r.Intn(n)] = ds[r.Intn(n)]
 		}
 		desc := map[string]any{"op": "detect", "schema": s0}
 		guard(desc, func() {
@@ -986,7 +1146,17 @@ func main() {
 				case 2:
 					e = sentinels[j]
 				}
-				if d.viaOpt {
+				if d.custom != nil {
+					ddescs[len(ddescs)-1] = d.name
+					w.Tally("detect:kind=" + strings.SplitN(d.name, "(", 2)[0])
+					opt, det := d.custom(sentinels[j])
+					opts = append(opts, opt)
+					if det != nil {
+						dets = append(dets, det)
+					} else {
+						detOK = false
+					}
+				} else if d.viaOpt {
 					opts = append(opts, resource.WithAttributes(toAttrs(d.res.input)...))
 					detOK = false
 				} else {
@@ -1012,6 +1182,9 @@ func main() {
 			anyErr := false
 			for j := range ds {
 				hit := err != nil && errors.Is(err, sentinels[j])
+				if ds[j].invalidKey {
+					hit = err != nil && strings.Contains(err.Error(), "invalid attribute")
+				}
 				errs[j] = vgen.Bool(hit)
 				anyErr = anyErr || hit
 			}
@@ -1112,6 +1285,9 @@ func main() {
 		}
 		if !res.EnvSame {
 			w.Violation("resource.Environment() differs from New(WithFromEnv())", desc)
+		}
+		if res.Default != "" {
+			w.Violation("resource.Default(): "+res.Default, desc)
 		}
 		var attrs []kvt
 		for _, a := range res.Attrs {
